@@ -75,13 +75,18 @@ func source(prev chainhash.Hash, nonce uint32) domains.BlockHeaderSource {
 // every way at repository-method granularity with at most p preemptions. Afterwards INV-H
 // holds again (in particular one longest-chain header per height) and exactly the two
 // headers were added: the store is the one some sequential order would have produced.
-func HarnessTwoSubmitters(k int, p int) { twoSubmitters(k, p, false) }
+func HarnessTwoSubmitters(k int, p int) { twoSubmitters(k, p, 0) }
 
 // HarnessTwoBranches: the slice of HarnessTwoSubmitters in which one header extends the longest
 // chain and the other a stored stale branch (two peers feeding two branches) - one row further.
-func HarnessTwoBranches(k int, p int) { twoSubmitters(k, p, true) }
+func HarnessTwoBranches(k int, p int) { twoSubmitters(k, p, 1) }
 
-func twoSubmitters(k int, p int, distinctStoredParents bool) {
+// HarnessForkBelowTip: the slice in which one header extends the tip and the other forks off a
+// longest-chain header below the tip (it may out-work the tip and reorganise).
+func HarnessForkBelowTip(k int, p int) { twoSubmitters(k, p, 2) }
+
+func twoSubmitters(k int, p int, slice int) {
+	distinctStoredParents := slice == 1
 	pre := make([]hstore.H, k)
 	for i := range pre {
 		pre[i] = hstore.NondetH()
@@ -104,6 +109,14 @@ func twoSubmitters(k int, p int, distinctStoredParents bool) {
 		for i := range pre {
 			pa = vh.Or(pa, vh.And(vh.HashEq(pre[i].Hash, srcA.PrevBlock), pre[i].State == hstore.L))
 			pb = vh.Or(pb, vh.And(vh.HashEq(pre[i].Hash, srcB.PrevBlock), pre[i].State == hstore.S))
+		}
+		vh.Assume(vh.And(pa, pb))
+	}
+	if slice == 2 {
+		pa, pb := false, false
+		for i := range pre {
+			pa = vh.Or(pa, vh.And(vh.HashEq(pre[i].Hash, srcA.PrevBlock), hstore.IsTip(pre, i)))
+			pb = vh.Or(pb, vh.And(vh.HashEq(pre[i].Hash, srcB.PrevBlock), pre[i].State == hstore.L, !hstore.IsTip(pre, i)))
 		}
 		vh.Assume(vh.And(pa, pb))
 	}
